@@ -1,8 +1,8 @@
 SPECIFICATION GSpec
 CONSTANTS
   KeyArgs <- AllKeyArgs
-  ValArgs = {"v1", "v2", "v3", "VEMPTY", "VOVER"}
-  SpecialVals = {"VEMPTY", "VOVER"}
+  ValArgs = {"v1", "v2", "v3"}
+  SpecialVals = {}
   MaxTx = 7
   Role = "replica"
   MaxKeyLen = 4096
